@@ -147,8 +147,13 @@ def find_adt(F, last):
     return hits
 
 
+STATE = '<channel state>'       # wrapper: (per-channel element, tuple of the other outer fields)
+
+
 class ScannerModel(object):
-    """locates the outer scanner type, its per-channel element type and the element's methods"""
+    """The outer scanner type seen from one channel: an array of 16 per-channel elements plus, possibly,
+    further fields shared by all channels (e.g. a timeout).  The analysis always goes through the *outer*
+    public methods with a concrete channel k; nothing is assumed about how the element is processed."""
 
     def __init__(self, F, public_name):
         self.F = F
@@ -158,23 +163,29 @@ class ScannerModel(object):
             raise RuntimeError('public scanner type %s not found (%r)' % (public_name, outs))
         self.outer = outs[0]
         a = F.adts[self.outer]
-        fs = a['variants'][0]['fields']
-        arr = [f for f in fs if f['ty']['k'] == 'array']
-        if len(fs) != 1 or len(arr) != 1 or arr[0]['ty']['ty']['k'] != 'adt':
-            raise RuntimeError('%s is not a single array of per-channel scanners: %r' % (self.outer, [(f['name'], f['ty']['k']) for f in fs]))
-        self.array_len = arr[0]['ty']['len']
-        self.array_field_private = arr[0]['vis'] != 'Public'
-        self.sub = arr[0]['ty']['ty']['path']
-        self.sub_ty = arr[0]['ty']['ty']
+        self.fields = a['variants'][0]['fields']
+        arr = [i for i, f in enumerate(self.fields) if f['ty']['k'] == 'array' and f['ty']['len'] == 16]
+        if len(arr) != 1:
+            raise RuntimeError('%s has no single per-channel array of 16 elements: %r' % (
+                self.outer, [(f['name'], f['ty']['k'], f['ty'].get('len')) for f in self.fields]))
+        self.ai = arr[0]
+        self.extra = [i for i in range(len(self.fields)) if i != self.ai]
+        af = self.fields[self.ai]
+        self.array_len = af['ty']['len']
+        self.array_field_private = all(f['vis'] != 'Public' for f in self.fields)
+        self.sub_ty = af['ty']['ty']
+        self.sub = self.sub_ty['path'] if self.sub_ty['k'] == 'adt' else None
         self.outer_ty = H.adt_ty(self.outer)
         self.methods = {}
-        for name in ('feed', 'poll', 'reset'):
+        for name in ('feed', 'poll', 'reset', 'new'):
             ok = self.outer + '::' + name
             if ok in F.fns:
                 self.methods[name] = (ok, self._callee(ok))
 
     def _callee(self, outer_key):
-        # the element method called by the outer method (directly or from one of its closures)
+        # the element method called by the outer method, if there is one (used for reporting only)
+        if self.sub is None:
+            return None
         keys = [outer_key] + sorted(k for k in self.F.fns if k.startswith(outer_key + '::{closure'))
         for k in keys:
             fn = self.F.fns[k]
@@ -187,25 +198,36 @@ class ScannerModel(object):
                     sel = c.get('impl_self')
                     if sel and sel['k'] == 'adt' and sel['path'] == self.sub:
                         return c['path']
-        # fall back to the element type's own method of the same name
-        name = outer_key.split('::')[-1]
-        cand = self.sub + '::' + name
-        return cand if cand in self.F.fns else None
+        return None
 
     def sub_key(self, name):
+        """function to name in reports for method `name`: the element method when there is one, else the outer method"""
         m = self.methods.get(name)
-        return m[1] if m else None
+        if not m:
+            return None
+        return m[1] or m[0]
+
+    def outer_key(self, name):
+        m = self.methods.get(name)
+        return m[0] if m else None
+
+    # ---- tracked per-channel state <-> outer value
+    def wrap(self, outer_val, k):
+        arr = outer_val.fields[self.ai]
+        return Ag(STATE, 0, [arr.elems[k], Ag('()', 0, [outer_val.fields[i] for i in self.extra])])
+
+    def build(self, state, k, others):
+        fields = [None] * len(self.fields)
+        fields[self.ai] = Ar([state.fields[0] if j == k else others[j] for j in range(16)])
+        for n, i in enumerate(self.extra):
+            fields[i] = state.fields[1].fields[n]
+        return Ag(self.outer, 0, fields)
 
 
 def msg_roles(F):
-    """field paths of the message structs by public accessor name"""
-    from .invariants import _accessor_path
-    r = {}
-    for name in ('channel', 'msb_controller_number', 'value'):
-        r[(CC14, name)] = _accessor_path(F, CC14 + '::' + name, CC14)
-    for name in ('channel', 'number', 'value', 'is_registered', 'is_14_bit', 'data_type'):
-        r[(PNM, name)] = _accessor_path(F, PNM + '::' + name, PNM)
-    return r
+    """field paths of the message structs by public accessor name (None: the accessor computes its result)"""
+    from . import view
+    return view.field_roles(F)
 
 
 def get_path(v, path):
@@ -230,71 +252,150 @@ class Product(object):
         self.init_keys = []
 
 
-def class_cons(cname, kind, rng):
+def class_cons(cname, kind, rng, k=0):
+    """constraints on the current-input tokens for an input class on channel k"""
     c = {CUR_D1: VS(0, 127), CUR_D2: VS(0, 127)}
     if kind == 'cc':
-        c[CUR_STATUS] = VS(0xB0, 0xBF)
+        c[CUR_STATUS] = VS.one(0xB0 | k)
         c[CUR_D1] = VS(rng[0], rng[1])
     elif kind == 'noncc':
-        c[CUR_STATUS] = NONCC_STATUS
-    elif kind == 'poll':
-        c = {POLL_CH: VS(0, 15)}
+        if rng == 'system':
+            c[CUR_STATUS] = VS(0xF0, 0xFF)          # system messages have no channel: seen from every channel k
+        else:
+            c[CUR_STATUS] = VS.of([t | k for t in (0x80, 0x90, 0xA0, 0xC0, 0xD0, 0xE0)])
     else:
         c = {}
     return c
 
 
-def run_step(F, model, kind, code_state, cons, status=CUR_STATUS, d1=CUR_D1, d2=CUR_D2):
-    """one abstract step of the per-channel scanner -> (interp, outcomes); new state = root['self']"""
+class StepOutcome(object):
+    __slots__ = ('kind', 'why', 'value', 'st', 'new_state', 'interference', 'site')
+
+    def __init__(self, kind, why, value, st, new_state, interference, site=None):
+        self.kind, self.why, self.value, self.st, self.new_state, self.interference, self.site = kind, why, value, st, new_state, interference, site
+
+
+def run_step(F, model, kind, code_state, cons, status=CUR_STATUS, d1=CUR_D1, d2=CUR_D2, k=0):
+    """one abstract step of the *outer* scanner seen from channel k -> (interp, [StepOutcome]).
+    The elements of the other 15 channels are unconstrained tops; any read or write of them is reported as
+    interference (feed / poll); for reset they are new elements."""
     hooks = H.msg_hooks(status, d1, d2)
     I = Interp(F, abstract_methods=hooks)
     st = I.new_state()
     st.cons.update(cons)
-    st.root().locals['self'] = code_state
+    if kind == 'reset':
+        others = [code_state.fields[0]] * 16
+    else:
+        others = [Un(model.sub_ty, 'channel %d' % j) for j in range(16)]
+    outer = model.build(code_state, k, others)
+    st.root().locals['self'] = outer
     selfref = Rf(0, 'self', (), True)
     if kind in ('cc', 'noncc', 'feed'):
-        key = model.sub_key('feed')
+        key = model.outer_key('feed')
         st.root().locals['msg'] = Sc(T.T('msg', 'opaque'), H.param('impl ShortMessage', 0))
         outs = I.run(key, [selfref, Rf(0, 'msg', ())], [H.param('impl ShortMessage', 0)], st)
     elif kind == 'poll':
-        key = model.sub_key('poll')
-        outs = I.run(key, [selfref, H.nt('Channel', POLL_CH)], [], st)
+        key = model.outer_key('poll')
+        outs = I.run(key, [selfref, H.nt('Channel', C(k))], [], st)
     elif kind == 'reset':
-        key = model.sub_key('reset')
+        key = model.outer_key('reset')
         outs = I.run(key, [selfref], [], st)
     else:
         raise ValueError(kind)
-    return I, outs
-
-
-def initial_states(F, model, spec):
-    """[(label, code state, spec state, cons)]"""
     res = []
-    hit = find_impl(Interp(F), 'core::default::Default', 'default', [model.sub_ty])
+    for o in outs:
+        new_state, interf = None, None
+        if o.kind == 'return':
+            after = o.st.root().locals['self']
+            arr = after.fields[model.ai] if isinstance(after, Ag) and len(after.fields) > model.ai else None
+            if not isinstance(arr, Ar) or len(arr.elems) != 16:
+                interf = 'unproven: the per-channel storage is no longer a 16-element array: %r' % (arr,)
+            else:
+                new_state = model.wrap(after, k)
+                if kind != 'reset':
+                    interf = _interference(model, k, o, arr, others)
+        res.append(StepOutcome(o.kind, o.why, o.value, o.st, new_state, interf, o.site))
+    return I, res
+
+
+def _interference(model, k, o, arr, others):
+    """explicit writes of this call into the state of another channel or into a field shared by all channels;
+    reads of another channel's state (its lazily materialised top differs from the untouched original)"""
+    written, shared, weak = set(), set(), False
+    for e in o.st.events:
+        if e[0] == 'weak-array-write':
+            weak = True
+        if e[0] != 'w':
+            continue
+        path = e[1]
+        if not path:
+            written |= set(range(16)) - {k}
+            continue
+        if path[0][0] != 'f':
+            continue
+        if path[0][1] != model.ai:
+            shared.add(path[0][1])
+            continue
+        if len(path) == 1:
+            # the whole array is assigned: compare element-wise below
+            written |= set(j for j in range(16) if j != k and arr.elems[j] is not others[j])
+            continue
+        idx = vs_of(path[1][1], o.st.cons) if path[1][0] == 'i' else None
+        if idx is None or not idx.single():
+            weak = True
+        elif idx.lo != k:
+            written.add(idx.lo)
+    if written:
+        return 'an input for channel %d writes the state of channel(s) %s' % (k, sorted(written)[:4])
+    if weak:
+        return 'an input for channel %d writes a per-channel element whose index is not determined by the channel' % k
+    if shared:
+        return 'unproven: an input for channel %d writes field(s) %s shared by all channels' % (
+            k, [model.fields[i]['name'] for i in sorted(shared)])
+    read = [j for j in range(16) if j != k and arr.elems[j] is not others[j]]
+    if read:
+        return 'unproven: an input for channel %d reads the state of channel(s) %s' % (k, read[:4])
+    return None
+
+
+def initial_states(F, model, spec, k=0):
+    """[(label, code state, spec state, cons)] from the outer Default / new"""
+    res = []
+    hit = find_impl(Interp(F), 'core::default::Default', 'default', [model.outer_ty])
     if hit:
         I = Interp(F)
         outs = I.run(hit[0], [], hit[1])
-        if len(outs) == 1 and outs[0].kind == 'return':
-            v = outs[0].value
-            to = None
-            if spec.has_poll:
-                to = ('app', 'Duration::default', ())
-            res.append(('default', v, spec.init(to), {}))
+        if len(outs) == 1 and outs[0].kind == 'return' and _uniform(model, outs[0].value):
+            to = ('app', 'Duration::default', ()) if spec.has_poll else None
+            res.append(('default', model.wrap(outs[0].value, k), spec.init(to), {}))
     newk = model.outer + '::new'
-    if newk in F.fns and spec.has_poll:
+    if newk in F.fns:
         I = Interp(F)
         st = I.new_state()
-        tok = T.T('timeout', 'opaque')
-        outs = I.run(newk, [Sc(tok, {'k': 'adt', 'path': 'core::time::Duration', 'krate': 'core', 'args': []})], [], st)
-        if len(outs) == 1 and outs[0].kind == 'return':
-            arr = outs[0].value.fields[0] if isinstance(outs[0].value, Ag) else None
-            if isinstance(arr, Ar) and arr.elems:
-                res.append(('new(timeout)', arr.elems[0], spec.init(tok), {}))
+        if spec.has_poll:
+            tok = T.T('timeout', 'opaque')
+            outs = I.run(newk, [Sc(tok, {'k': 'adt', 'path': 'core::time::Duration', 'krate': 'core', 'args': []})], [], st)
+            init = spec.init(tok)
+        else:
+            outs = I.run(newk, [], [], st)
+            init = spec.init(None)
+        if len(outs) == 1 and outs[0].kind == 'return' and _uniform(model, outs[0].value):
+            res.append(('new', model.wrap(outs[0].value, k), init, {}))
     return res
 
 
-def extract_outputs(F, roles, ret):
-    """normalise the return value of feed/poll to a list of message role dicts (or None = malformed)"""
+def _uniform(model, outer_val):
+    arr = outer_val.fields[model.ai] if isinstance(outer_val, Ag) and len(outer_val.fields) > model.ai else None
+    return isinstance(arr, Ar) and len(arr.elems) == 16 and all(val_key(e) == val_key(arr.elems[0]) for e in arr.elems)
+
+
+def extract_outputs(F, roles, ret, st=None):
+    """normalise the return value of feed/poll to a list of message role dicts (or None = malformed); the roles are
+    what the public accessors return for the reported value (st: the state of the reporting path)"""
+    from . import view
+    cons = st.cons if st is not None else {}
+    ntok = st.ntok if st is not None else 0
+
     def one(v):
         p = H.opt_payload(v)
         if p is None:
@@ -304,11 +405,7 @@ def extract_outputs(F, roles, ret):
         m = p[1]
         if not isinstance(m, Ag) or m.path not in (CC14, PNM):
             return 'bad'
-        d = {'__path': m.path}
-        for (path, name), fp in roles.items():
-            if path == m.path:
-                d[name] = get_path(m, fp) if fp is not None else None
-        return d
+        return view.observe(F, m, cons, ntok)
     if isinstance(ret, Ar):
         items = [one(e) for e in ret.elems]
     else:
@@ -366,12 +463,17 @@ def walk_tree(tree, preds, cons):
     return walk_tree(a, preds, cons) + walk_tree(b, preds, cons)
 
 
-def explore(F, model, spec, max_pairs=400):
+EXPLORE_SECONDS = 40.0      # wall-clock budget of one channel's exploration; exceeding it fails closed
+
+
+def explore(F, model, spec, k=0, max_pairs=200):
+    """product of the outer scanner, seen from channel k, with the reference automaton"""
     roles = msg_roles(F)
     P = Product()
     P.roles = roles
+    P.channel = k
     work = []
-    for label, cs, ss, cons in initial_states(F, model, spec):
+    for label, cs, ss, cons in initial_states(F, model, spec, k):
         c2, s2, cons2, key, _m = canonical_pair(cs, ss, cons)
         if key not in P.pairs:
             P.pairs[key] = (c2, s2, cons2, label)
@@ -380,18 +482,30 @@ def explore(F, model, spec, max_pairs=400):
         P.init_keys.append((label, key))
     P.steps = 0
     P.fns = set()
+    if not work:
+        P.mismatches.append((None, 'init', 'no initial state: Default / new of the scanner could not be interpreted, or its 16 elements differ'))
+    ch = C(k)
+    import time as _time
+    t_end = _time.time() + EXPLORE_SECONDS
+    P.exhausted = False
     while work:
+        if _time.time() > t_end:
+            P.exhausted = True
+            P.mismatches.append((work[0], 'init', 'unproven: the exploration of channel %d did not finish within %.0f s (%d abstract pairs so far)' % (
+                k, EXPLORE_SECONDS, len(P.pairs))))
+            break
         key = work.pop(0)
         cs, ss, cons, _ = P.pairs[key]
         for cname, kind, rng in spec.classes:
-            if kind == 'poll' and not model.sub_key('poll'):
+            if kind == 'poll' and not model.outer_key('poll'):
                 P.mismatches.append((key, cname, 'scanner has no poll method'))
                 continue
-            if kind == 'reset' and not model.sub_key('reset'):
-                continue      # no per-element reset method: the outer reset is interpreted as a whole by C17
+            if kind == 'reset' and not model.outer_key('reset'):
+                P.mismatches.append((key, cname, 'scanner has no reset method'))
+                continue
             c0 = dict(cons)
-            c0.update(class_cons(cname, kind, rng))
-            I, outs = run_step(F, model, kind, cs, c0)
+            c0.update(class_cons(cname, kind, rng, k))
+            I, outs = run_step(F, model, kind, cs, c0, k=k)
             P.steps += I.total_steps
             P.fns |= I.fns_entered
             for o in outs:
@@ -417,18 +531,20 @@ def explore(F, model, spec, max_pairs=400):
                 if o.st.notes:
                     P.mismatches.append((key, cname, 'unmodelled callee on the path: %s' % o.st.notes[:2]))
                     continue
-                new_code = o.st.root().locals['self']
+                if o.interference:
+                    P.mismatches.append((key, cname, o.interference, 'interference'))
+                new_code = o.new_state
                 row.code_out = new_code
                 row.identity = val_key(new_code) == val_key(cs)
                 if kind == 'poll':
-                    cur = Cur(POLL_CH, None, None, None)
+                    cur = Cur(ch, None, None, None)
                 elif kind == 'reset':
                     cur = Cur(None, None, None, None)
                 else:
-                    cur = Cur(H.t_low_nibble(CUR_STATUS, o.st.cons), CUR_D1, CUR_D2, row.now_tokens[0] if len(row.now_tokens) == 1 else None)
+                    cur = Cur(ch, CUR_D1, CUR_D2, row.now_tokens[0] if len(row.now_tokens) == 1 else None)
                 tree = spec.step(ss, cname, kind, cur)
                 leaves = walk_tree(tree, row.preds, o.st.cons)
-                outputs = extract_outputs(F, roles, o.value) if kind != 'reset' else []
+                outputs = extract_outputs(F, roles, o.value, o.st) if kind != 'reset' else []
                 row.outputs = outputs
                 if outputs is None:
                     P.mismatches.append((key, cname, 'malformed result %r' % (o.value,)))
@@ -482,13 +598,68 @@ def _spec_needs_now(s):
 _product_cache = {}
 
 
+def _explore_channel(args):
+    cfg, spec_cls, public_name, k = args
+    from . import facts
+    F = facts.load(cfg)
+    model = ScannerModel(F, public_name)
+    P = explore(F, model, spec_cls(), k)
+    return k, P
+
+
 def product_for(F, spec_cls, public_name):
-    k = (F.cfg, F.tree, public_name)
-    if k not in _product_cache:
-        model = ScannerModel(F, public_name)
-        spec = spec_cls()
-        _product_cache[k] = (model, spec, explore(F, model, spec))
-    return _product_cache[k]
+    """(model, spec, product on channel 0, {k: product on channel k}) - all 16 channels, cached per tree"""
+    key = (F.cfg, F.tree, public_name)
+    if key in _product_cache:
+        return _product_cache[key]
+    import hashlib
+    import os
+    import pickle
+    from . import facts
+    here = os.path.dirname(os.path.abspath(__file__))
+    h = hashlib.sha256()
+    for root, dirs, names in os.walk(here):
+        dirs.sort()
+        for n in sorted(names):
+            if n.endswith('.py'):
+                h.update(open(os.path.join(root, n), 'rb').read())
+    cp = os.path.join(facts.CACHE, 'facts', F.tree, '%s.product.%s.%s.pkl' % (F.cfg, public_name, h.hexdigest()[:12]))
+    model = ScannerModel(F, public_name)
+    spec = spec_cls()
+    allp = None
+    if os.path.exists(cp):
+        try:
+            allp = pickle.load(open(cp, 'rb'))
+        except Exception:
+            allp = None
+    if allp is None:
+        allp = {}
+        k0, P0 = _explore_channel((F.cfg, spec_cls, public_name, 0))
+        allp[0] = P0
+        jobs = [(F.cfg, spec_cls, public_name, k) for k in range(1, 16)]
+        if getattr(P0, 'exhausted', False):
+            jobs = []          # pathological state space: do not repeat the failure fifteen times
+        try:
+            import multiprocessing as mp
+            with mp.Pool(min(8, os.cpu_count() or 1)) as pool:
+                for k, P in pool.map(_explore_channel, jobs):
+                    allp[k] = P
+        except Exception:
+            allp = {0: P0}
+            for j in jobs:
+                k, P = _explore_channel(j)
+                allp[k] = P
+        try:
+            pickle.dump(allp, open(cp + '.tmp', 'wb'))
+            os.rename(cp + '.tmp', cp)
+        except Exception:
+            pass
+    for k in range(1, 16):
+        if k not in allp:
+            allp[k] = P0       # only when channel 0 exhausted its budget (reported there)
+    res = (model, spec, allp[0], allp)
+    _product_cache[key] = res
+    return res
 
 
 def spec_shape(ss):
